@@ -147,7 +147,9 @@ func (rc *RunCtx) syntaxFamily(ins []SynIn, prefixes ...string) {
 		}
 	}
 	rc.addInt("records_not_decided_opaque", skipped)
-	sort.Slice(rejs, func(i, j int) bool { return rejs[i].id < rejs[j].id || (rejs[i].id == rejs[j].id && rejs[i].cl < rejs[j].cl) })
+	sort.Slice(rejs, func(i, j int) bool {
+		return rejs[i].id < rejs[j].id || (rejs[i].id == rejs[j].id && rejs[i].cl < rejs[j].cl)
+	})
 	if len(rejs) > maxConfirm {
 		rc.Notes = append(rc.Notes, fmt.Sprintf("%d further rejections were not re-executed", len(rejs)-maxConfirm))
 		rejs = rejs[:maxConfirm]
